@@ -48,9 +48,9 @@ type trace struct {
 	Steps []step `json:"trace"`
 }
 
-func (s *step) str(i int) string   { var v string; _ = json.Unmarshal(s.Args[i], &v); return v }
-func (s *step) ints(i int) []int   { var v []int; _ = json.Unmarshal(s.Args[i], &v); return v }
-func (s *step) num(i int) int      { var v int; _ = json.Unmarshal(s.Args[i], &v); return v }
+func (s *step) str(i int) string { var v string; _ = json.Unmarshal(s.Args[i], &v); return v }
+func (s *step) ints(i int) []int { var v []int; _ = json.Unmarshal(s.Args[i], &v); return v }
+func (s *step) num(i int) int    { var v int; _ = json.Unmarshal(s.Args[i], &v); return v }
 func (s *step) describe() string {
 	p := []string{}
 	for _, a := range s.Args {
